@@ -107,8 +107,10 @@ def parse_printed(text):
 # running the implementation
 # ---------------------------------------------------------------------------------------------
 def reset_state():
-    q = _q()
-    q.clear_unit_definitions()
+    """isolation between cases: does NOT go through clear_unit_definitions (that function is under test; a history's
+    'clear' event calls it), the module global is rebound directly"""
+    q, U = _q(), _U()
+    U.UNIT_DEFINITIONS = {}
     q.reset_default_configuration()
 
 
